@@ -157,11 +157,11 @@ func (in *Interp) binop(g *G, op token.Token, t types.Type, x, y Value) Value {
 			return concatStr(x, y)
 		}
 		if op == token.EQL || op == token.NEQ {
-			kx, okx := keyOf(x)
-			ky, oky := keyOf(y)
-			if okx && oky { // concrete identity (concrete strings, atoms)
-				return mkBool((kx == ky) == (op == token.EQL))
+			eq := in.strEqTerm(x, y)
+			if op == token.NEQ {
+				eq = in.Ctx.Not(eq)
 			}
+			return mkSymBool(eq)
 		}
 		cmp := in.strCompare(x, y) // symbolic int64: -1,0,1
 		return in.binop(g, op, types.Typ[types.Int], cmp, mkInt(0, 64))
@@ -397,7 +397,7 @@ func (in *Interp) ropeBytes(v Value) ([]*smt.Term, bool) {
 	var out []*smt.Term
 	for _, sg := range r.Segs {
 		switch {
-		case sg.Atom != nil:
+		case sg.Atom != nil, sg.Opq != nil:
 			return nil, false
 		case sg.Sym != nil:
 			out = append(out, sg.Sym...)
@@ -509,6 +509,12 @@ func (in *Interp) bytesToString(x Value) Value {
 	// opaque byte slice: single cell holding KOpaque atom ref
 	if len(s) == 1 && s[0].K == KOpaque {
 		if ob, ok := s[0].R.(*OpaqueBytes); ok {
+			if ob.T != nil {
+				if ob.T.Ctor == "bytes-of" {
+					return ob.T.Args[0].(Value)
+				}
+				return Value{K: KStr, R: &Rope{Segs: []Seg{{Opq: ob.T}}}}
+			}
 			return Value{K: KStr, R: &Rope{Segs: []Seg{{Atom: ob.A, Tag: ob.Tag}}}}
 		}
 	}
@@ -544,6 +550,7 @@ func (in *Interp) bytesToString(x Value) Value {
 type OpaqueBytes struct {
 	A   *Atom
 	Tag string
+	T   *OTerm
 }
 
 func (in *Interp) stringToBytes(x Value) Value {
@@ -551,9 +558,14 @@ func (in *Interp) stringToBytes(x Value) Value {
 	var out []Value
 	for _, sg := range r.Segs {
 		switch {
+		case sg.Opq != nil:
+			if len(r.Segs) != 1 {
+				return opqBytes(ot("bytes-of", x)) // mixed rope: the whole string as one opaque byte string
+			}
+			return opqBytes(sg.Opq)
 		case sg.Atom != nil:
 			if len(r.Segs) != 1 {
-				unsupported("[]byte of mixed atom string")
+				return opqBytes(ot("bytes-of", x))
 			}
 			return Value{K: KSlice, R: &SliceV{S: []Value{{K: KOpaque, R: &OpaqueBytes{A: sg.Atom, Tag: sg.Tag}}}}}
 		case sg.Sym != nil:
@@ -640,8 +652,71 @@ func (in *Interp) concIntChecked(g *G, v Value, site string) int64 {
 	return in.concInt(v, site)
 }
 
+// tableLookup: a read-only lookup table (array of >= 16 concrete integers, reached through a pointer to the
+// array, e.g. utf8.first, hex tables) indexed by a symbolic value yields one ite-chain instead of a fork per
+// index value. The result is a pointer to a fresh cell: loads see the selected element; such tables are
+// never stored to through a symbolic index.
+func (in *Interp) tableLookup(g *G, x Value, iv Value) (Value, bool) {
+	if iv.R == nil || x.K != KPtr || x.R == nil {
+		return Value{}, false
+	}
+	arr, ok := x.R.(*Value)
+	if !ok || arr.K != KArray {
+		return Value{}, false
+	}
+	elems := arr.R.([]Value)
+	if len(elems) < 16 || len(elems) > 256 {
+		return Value{}, false
+	}
+	for _, e := range elems {
+		if (e.K != KInt && e.K != KBool) || e.R != nil {
+			return Value{}, false
+		}
+	}
+	c := in.Ctx
+	idx := iv.R.(*smt.Term)
+	// bounds check
+	inb := c.T
+	if idx.W >= 63 || uint64(len(elems)) < (uint64(1)<<idx.W) {
+		inb = c.Cmp(smt.OpULt, idx, c.BV(uint64(len(elems)), idx.W))
+	}
+	if !in.Branch(inb, "table index in range") {
+		in.goPanic(g, "index out of range (symbolic table index)")
+		return Value{}, true
+	}
+	isBool := elems[0].K == KBool
+	var res *smt.Term
+	if isBool {
+		res = c.F
+	} else {
+		res = c.BV(0, elems[0].W)
+	}
+	for i := len(elems) - 1; i >= 0; i-- {
+		var ev *smt.Term
+		if isBool {
+			ev = c.Bool(elems[i].N == 1)
+		} else {
+			ev = c.BV(elems[i].N, elems[i].W)
+		}
+		res = c.Ite(c.Cmp(smt.OpEq, idx, c.BV(uint64(i), idx.W)), ev, res)
+	}
+	cell := new(Value)
+	if isBool {
+		*cell = mkSymBool(res)
+	} else {
+		*cell = mkSymInt(res)
+	}
+	return Value{K: KPtr, R: cell}, true
+}
+
 func (in *Interp) indexAddr(g *G, fr *Frame, ins *ssa.IndexAddr) {
 	x := in.get(fr, ins.X)
+	if v, ok := in.tableLookup(g, x, in.get(fr, ins.Index)); ok {
+		if g.top == fr && !fr.panicking {
+			in.set(fr, ins, v)
+		}
+		return
+	}
 	i := in.concInt(in.get(fr, ins.Index), "index")
 	var elems []Value
 	switch x.K {
@@ -714,11 +789,10 @@ func (in *Interp) lookup(g *G, fr *Frame, ins *ssa.Lookup) {
 	found := false
 	if x.R != nil {
 		in.raceAccess(x.R.(*MapV), false)
-		ks, ok := keyOf(k)
-		if !ok {
-			unsupported("symbolic map key in lookup")
+		m := x.R.(*MapV)
+		if i, ok := in.mapFind(g, m, k); ok {
+			v, found = m.Vals[i], true
 		}
-		v, found = x.R.(*MapV).get(ks)
 	}
 	if !found {
 		v = zero(elemT)
@@ -738,7 +812,7 @@ func (in *Interp) typeAssert(g *G, fr *Frame, ins *ssa.TypeAssert) {
 	if x.R != nil {
 		iv := x.R.(*IfaceV)
 		if it, isI := ins.AssertedType.Underlying().(*types.Interface); isI {
-			ok = iv.T != errType && types.Implements(iv.T, it)
+			ok = iv.T != errType && (iv.T == keyType || iv.T == ctxType || types.Implements(iv.T, it))
 			if iv.T == errType {
 				ok = it.NumMethods() <= 1 // opaque errors implement error only
 			}
@@ -760,6 +834,65 @@ func (in *Interp) typeAssert(g *G, fr *Frame, ins *ssa.TypeAssert) {
 		return
 	}
 	in.set(fr, ins, res)
+}
+
+// mapFind locates key k in m. Keys of concrete identity use the index; a key (or stored keys) whose
+// identity is symbolic is compared by formula with the candidates, forking on each undecided equality.
+func (in *Interp) mapFind(g *G, m *MapV, k Value) (int, bool) {
+	ks, canon := keyOf(k)
+	if canon {
+		if i, ok := m.idx[ks]; ok {
+			return i, true
+		}
+		for _, i := range m.fuzzy {
+			if m.Live[i] && in.decideEq(g, k, m.Keys[i]) {
+				return i, true
+			}
+		}
+		return -1, false
+	}
+	for i := range m.Keys {
+		if m.Live[i] && in.decideEq(g, k, m.Keys[i]) {
+			return i, true
+		}
+	}
+	return -1, false
+}
+
+func (in *Interp) decideEq(g *G, a, b Value) bool {
+	eq := in.valEq(g, a, b)
+	if eq.R == nil {
+		return eq.N == 1
+	}
+	return in.Branch(eq.R.(*smt.Term), "map key equality")
+}
+
+func (in *Interp) mapSet(g *G, m *MapV, k, v Value) {
+	if i, ok := in.mapFind(g, m, k); ok {
+		m.Vals[i] = v
+		return
+	}
+	ks, canon := keyOf(k)
+	pos := len(m.Keys)
+	if canon {
+		m.idx[ks] = pos
+	} else {
+		m.fuzzy = append(m.fuzzy, pos)
+	}
+	m.Keys = append(m.Keys, k)
+	m.Vals = append(m.Vals, v)
+	m.Live = append(m.Live, true)
+	m.n++
+}
+
+func (in *Interp) mapDel(g *G, m *MapV, k Value) {
+	if i, ok := in.mapFind(g, m, k); ok {
+		if ks, canon := keyOf(m.Keys[i]); canon {
+			delete(m.idx, ks)
+		}
+		m.Live[i] = false
+		m.n--
+	}
 }
 
 type rangeIter struct {
